@@ -39,7 +39,7 @@ FACTOR = ('seg', 'ele', 'sub', 'eol')
 NAMES = {'': 'none', '\n': 'LF', '\r\n': 'CRLF', '\r': 'CR', '\x1c': 'FS', '\x1d': 'GS', '\\': 'backslash'}
 ENVELOPE = ('ISA', 'GS', 'ST', 'SE', 'GE', 'IEA', 'TA1')
 MUT_OPS = ('delete', 'duplicate', 'swap', 'retag-ZZZ', 'extra-elements', 'extra-components')      # from corpus.mutations
-OWN_OPS = ('trailing-element', 'trailing-component', 'lone-separator', 'control-char', 'empty-piece')                                            # made here, on the matrix
+OWN_OPS = ('trailing-element', 'trailing-component', 'lone-separator', 'control-char', 'caret-in-long-value', 'empty-piece')                                            # made here, on the matrix
 CHARSET_B_MAPS = ('834.4010.X095.A1.xml', '837.4010.X098.A1.xml', '835.5010.X221.A1.xml', '999.5010.xml')
 
 
@@ -301,6 +301,12 @@ def mutants(text, thorough):
         if eles:
             k = len(eles) - 1
             yield 'control-char@%d:%s%02d' % (i, sid, k + 1), base[:i] + [[sid, [list(c) for c in eles[:k]] + [['A\tB']]]] + base[i + 1:]
+        # an over-long value that contains a delimiter of the ACKNOWLEDGEMENT (^ is the repetition separator the 999 is written
+        # with, and an ordinary character of a 00401 document): however it is copied into AK404 / IK404, it is copied the
+        # same way whatever the delimiters of the document are
+        if eles:
+            k = len(eles) - 1
+            yield 'caret-in-long-value@%d:%s%02d' % (i, sid, k + 1), base[:i] + [[sid, [list(c) for c in eles[:k]] + [['A^B' + 'C' * 300]]]] + base[i + 1:]
         # an empty piece (a doubled terminator) after the segment: not a segment in any encoding, with or without line breaks
         yield 'empty-piece@%d:%s' % (i, sid), base[:i + 1] + [['', []]] + base[i + 1:]
 
